@@ -330,6 +330,11 @@ def run_check(mod, tier, seed):
         "unlisted_violating_cases": total.nfresh,
     }
     cov.update({k: v for k, v in total.extra.items() if k not in cov})
+    capped = sum(v for k, v in total.extra.items() if "capped" in k and isinstance(v, int))
+    if capped:
+        cov["exhaustive"] = False
+        cov["explanation"] = (f"{capped} inputs hit an execution cap; everything below the cap and all "
+                              "other inputs were enumerated completely")
     ev = {
         "property_id": prop,
         "tier": tier,
